@@ -104,7 +104,9 @@ class C06(Check):
             for start in ('A', 'B'):
                 u.append({'k': 'large', 'fam': fam, 'start': start})
         u.append({'k': 'multires'})
-        u.append({'k': 'seeds'})
+        # first in the list: it is then executed by a worker that has run nothing before (what an earlier alignment
+        # leaves behind in the process is exactly what this unit looks for)
+        u.insert(0, {'k': 'seeds'})
         return u
 
     def cases(self, unit, tier, seed):
